@@ -75,7 +75,7 @@ impl Prop for P {
                     let mut trace: Trace = Vec::new();
                     let mut i = 0u32;
                     let mut interesting = false;
-                    let r = drive(&mut d, &data, &DriveOpts { flags, mode, sched, canary: false, max_calls: None, announce: true, flat_start: 0 }, |d, info| {
+                    let r = drive(&mut d, &data, &DriveOpts { flags, mode, sched, canary: false, max_calls: None, announce: true, flat_start: 0, probe_full_ring: false }, |d, info| {
                         trace.push((info.status, info.consumed, info.written));
                         if let Some(s) = snap {
                             if i % (*every as u32) == (*phase as u32) % (*every as u32) {
@@ -127,7 +127,7 @@ impl Prop for P {
                 let mut d = DecompressorOxide::new();
                 let mut nb = 0usize;
                 let mut interesting = false;
-                let r = drive(&mut d, data, &DriveOpts { flags, mode: BufMode::Flat { cap: plain.len() + 1 }, sched, canary: false, max_calls: None, announce: true, flat_start: 0 }, |d, info| {
+                let r = drive(&mut d, data, &DriveOpts { flags, mode: BufMode::Flat { cap: plain.len() + 1 }, sched, canary: false, max_calls: None, announce: true, flat_start: 0, probe_full_ring: false }, |d, info| {
                     if info.status != TINFLStatus::BlockBoundary {
                         if d.block_boundary_state().is_some() && !matches!(info.status, TINFLStatus::NeedsMoreInput | TINFLStatus::HasMoreOutput) {
                             // (state ReadBlockHeader can also be observed when input ran out exactly there; allowed)
